@@ -49,7 +49,20 @@ type world struct {
 
 func depth(p string) int { return strings.Count(p, "/") + 1 }
 
-func buildWorld(points []string) *world {
+// lmem is an in-memory FS that also answers Lstat (it has no links, so Lstat is Stat): a constituent that implements
+// hackpadfs.LstatFS, as os.FS does, so that the Lstat helper's delegation through mount points has something to reach.
+type lmem struct{ *mem.FS }
+
+func (l lmem) Lstat(name string) (hackpadfs.FileInfo, error) { return l.FS.Stat(name) }
+
+func newPart(lstat bool) hackpadfs.FS {
+	if lstat {
+		return lmem{subj.NewMem()}
+	}
+	return subj.NewMem()
+}
+
+func buildWorld(points []string, lstat bool) *world {
 	pts := append([]string{}, points...)
 	sort.Slice(pts, func(i, j int) bool {
 		if depth(pts[i]) != depth(pts[j]) {
@@ -57,13 +70,13 @@ func buildWorld(points []string) *world {
 		}
 		return pts[i] < pts[j]
 	})
-	root := subj.NewMem()
+	root := newPart(lstat)
 	mfs, err := mount.NewFS(root)
 	must(err)
 	w := &world{mfs: mfs, parts: []hackpadfs.FS{root}}
 	for i, p := range pts {
 		must(hackpadfs.MkdirAll(mfs, p, 0o755)) // created in whichever FS the current routing selects
-		m := subj.NewMem()
+		m := newPart(lstat)
 		must(mfs.AddMount(p, m))
 		w.parts = append(w.parts, m)
 		w.points = append(w.points, p)
@@ -160,6 +173,8 @@ type Header struct {
 	// Stacked: the mount.FS is itself the root of a second, mount-less mount.FS and every operation enters through that
 	// outer layer: the helpers' MountFS delegation must keep dispatching (not fall back to the generic walk) layer by layer.
 	Stacked bool `json:"stacked,omitempty"`
+	// LstatParts: every constituent also implements hackpadfs.LstatFS
+	LstatParts bool `json:"lstat_parts,omitempty"`
 }
 
 type machine struct {
@@ -168,7 +183,7 @@ type machine struct {
 }
 
 func newMachine(h Header) *machine {
-	m := &machine{w1: buildWorld(h.Points), w2: buildWorld(h.Points)}
+	m := &machine{w1: buildWorld(h.Points, h.LstatParts), w2: buildWorld(h.Points, h.LstatParts)}
 	for _, w := range []*world{m.w1, m.w2} {
 		w.top = w.mfs
 		if h.Stacked {
@@ -347,6 +362,7 @@ func prefixRelated(points []string) bool {
 func run(t *testing.T) {
 	vf.Check(t, "route", func(rt *rapid.T, rec *vf.Rec) {
 		h := Header{Points: genPoints(rt), Stacked: rapid.IntRange(0, 3).Draw(rt, "stacked") == 0}
+		h.LstatParts = rapid.IntRange(0, 2).Draw(rt, "lstatparts") == 0
 		rec.Step(h)
 		if h.Stacked {
 			rec.Class("stacked-mount-layers")
@@ -370,6 +386,9 @@ func run(t *testing.T) {
 				op := gen.Op(rt, tr, names, 4, false)
 				if rapid.IntRange(0, 5).Draw(rt, "asopen") == 0 {
 					op = ops.Op{K: "open", P: op.P}
+				}
+				if h.LstatParts && rapid.IntRange(0, 3).Draw(rt, "aslstat") == 0 {
+					op = ops.Op{K: "lstat", P: op.P}
 				}
 				if k := knownSig(m, op); k != "" {
 					rec.Excluded(k)
